@@ -4,7 +4,7 @@ CONSTANTS
   Vals = {1, 2, 3, 4}
   HwMax = 3
   HwModes = {"clip", "refuse"}
-  Excs = {"badvalue", "hardware", "other"}
+  Excs = {"other", "badvalue"}
   FM = "q"
   FDepth = 4
   Depth = 7
